@@ -23,7 +23,9 @@ fn flip(mut v: Vec<u8>, bit: usize) -> Vec<u8> {
 pub fn run_one(b: u64, kind: &str, labels: &[String], seed: u64) -> Value {
     let mut sim = Sim::new(seed ^ b, NetCfg { lat_min_ms: 5, lat_max_ms: 5, ..Default::default() });
     let n = labels.len();
-    let ids: Vec<[u8; 20]> = (0..n).map(|i| crypto::sha1(&[i as u8, 31])).collect();
+    // one more peer that never answers lookups: it keeps the lookup in flight after every crafted response has been
+    // processed, so that a second caller can join it
+    let ids: Vec<[u8; 20]> = (0..n + 1).map(|i| crypto::sha1(&[i as u8, 31])).collect();
     let all: Vec<([u8; 20], SocketAddrV4)> = ids.iter().enumerate().map(|(i, id)| (*id, SocketAddrV4::new(fake_ip(i), 6881))).collect();
     let nodes = krpc::compact_nodes(&all);
     let victim = crypto::keypair(1);
@@ -44,6 +46,9 @@ pub fn run_one(b: u64, kind: &str, labels: &[String], seed: u64) -> Value {
         let q = m.q.clone().unwrap_or_default();
         if !(q == "get" || q == "get_signed_peers") {
             return Reply::Default;
+        }
+        if me.idx >= labels2.len() {
+            return Reply::Silent;
         }
         let lb = labels2[me.idx].as_str();
         let i = me.idx;
@@ -139,11 +144,17 @@ pub fn run_one(b: u64, kind: &str, labels: &[String], seed: u64) -> Value {
         "signed_peers" => GetKind::SignedPeers,
         _ => GetKind::Mutable { salt: salt.clone(), seq: None },
     };
-    let mut call = sim.call_get(c, gk, target, "get");
+    let mut call = sim.call_get(c, gk.clone(), target, "get");
     sim.poke(c);
-    let done = sim.run_calls(&mut [&mut call], 30_000);
+    // a second caller asks for the same thing on the same node while the lookup is still running (every response has
+    // been processed by then): it is handed what the lookup has recorded so far and then the rest of the stream
+    sim.run_for(100);
+    let mut joiner = sim.call_get(c, gk, target, "joiner");
+    sim.poke(c);
+    let done = sim.run_calls(&mut [&mut call, &mut joiner], 30_000);
     let mut yielded = vec![];
-    for (_, it) in &call.items {
+    let joined_items = joiner.items.len();
+    for (_, it) in call.items.iter().chain(joiner.items.iter()) {
         match it {
             Item::Immutable(v) => {
                 let ok = crypto::immutable_target(v) == target;
@@ -168,7 +179,7 @@ pub fn run_one(b: u64, kind: &str, labels: &[String], seed: u64) -> Value {
     }
     let n_auth = labels.iter().filter(|l| *l == "authentic").count();
     json!({"e":"lookup","b":b,"kind":kind,"labels":labels,"yielded":yielded,"done":done,"panicked":sim.nodes[c].panicked,
-        "authentic_responders":n_auth,"items":call.items.len()})
+        "authentic_responders":n_auth,"items":call.items.len(),"joiner_items":joined_items})
 }
 
 pub fn run(args: &Args) -> i32 {
